@@ -114,7 +114,9 @@ Pol Pol::random(Rng& r) {
     Pol p; p.storage = r.below(3); p.mm = r.below(4); p.del = r.below(3); return p;
 }
 
-forest* makeForest(domain* d, const Kind& k, const Pol& pl) {
+forest* makeForest(domain* d, const Kind& k, const Pol& pl0) {
+    Pol pl = pl0;
+    if (const char* e = getenv("MDH_FORCE_POL")) { int a = 2, b = 0, c = 1; sscanf(e, "%d,%d,%d", &a, &b, &c); pl.storage = a; pl.mm = b; pl.del = c; }
     policies p(k.rel);
     p.useDefaults(k.rel);
     switch (k.rr) {
